@@ -18,12 +18,13 @@ if [ "$demo" != "-" ]; then
   rm tests/demo.rs
 fi
 if cargo test --workspace --no-fail-fast --offline >"$d/tests.log" 2>&1; then echo "existing-tests: PASS"; else echo "existing-tests: FAIL"; grep -E "^test .* FAILED|panicked" "$d/tests.log" | head -5; fi
+unset CARGO_TARGET_DIR
 cd /verif
 for p in "$@"; do
   out=$(VERIF_HARNESS="$d/harness" ./check "$p" "$tier" 2>&1)
   rc=$?
   echo "check $p $tier: exit=$rc $(echo "$out" | grep -c '^VIOLATION') violation line(s)"
-  echo "$out" | grep -E "^VIOLATION|TOOL-ERROR" | head -2
+  echo "$out" | grep -E "^VIOLATION|TOOL-ERROR|Error|error|Traceback" | head -4; if [ $rc -eq 2 ]; then echo "$out" | tail -8; fi
   if [ $rc -eq 1 ]; then f=$(echo "$out" | grep '^VIOLATION' | head -1 | sed 's/.*replay=//'); mkdir -p "$d/replays"; cp "$f" "$d/replays/$p.json" 2>/dev/null; fi
 done
 echo "sandbox: $d"
